@@ -82,7 +82,7 @@ func NewContractSet() *ContractSet {
 	return &ContractSet{Funcs: map[string]*FuncContract{}, Specs: map[string]*SpecFn{}, Ghosts: map[string]*GhostDecl{}, Invs: map[string]*NamedInv{}}
 }
 
-var kwRe = regexp.MustCompile(`^(spec|axiom|ghost|inv|func|extern|requires|ensures|modifies|may_panic|deterministic|nooverflow|inline|mode|bytes|loop|assert|locals|lemma|trusted|pure|opaque|reveal|bounded)\b`)
+var kwRe = regexp.MustCompile(`^(spec|axiom|ghost|inv|func|extern|requires|ensures|modifies|may_panic|deterministic|nooverflow|inline|mode|bytes|loop|assert|locals|lemma|trusted|pure|opaque|reveal|bounded|keyfns|keyfn)\b`)
 
 // logical lines: (keyword, rest, line number)
 type cline struct {
@@ -198,7 +198,7 @@ func (cs *ContractSet) LoadFile(path, pkgPath string) error {
 					cur.Modifies = append(cur.Modifies, m)
 				}
 			}
-		case "may_panic", "deterministic", "nooverflow", "inline", "trusted", "pure", "opaque", "bounded":
+		case "may_panic", "deterministic", "nooverflow", "inline", "trusted", "pure", "opaque", "bounded", "keyfn":
 			if cur == nil {
 				return fmt.Errorf("%s:%d: flag outside func", path, l.line)
 			}
@@ -282,6 +282,15 @@ func (cs *ContractSet) LoadFile(path, pkgPath string) error {
 				cs.Lemmas = append(cs.Lemmas, &Lemma{Name: name, Expr: c.Expr, Src: c.Src, Pkg: pkgPath})
 			case "inv":
 				cs.Invs[name] = &NamedInv{Name: name, Expr: c.Expr, Pkg: pkgPath}
+			}
+			cur = nil
+		case "keyfns":
+			for _, nm := range strings.Fields(l.rest) {
+				full := pkgPath + "." + nm
+				if _, dup := cs.Funcs[full]; dup {
+					return fmt.Errorf("%s:%d: duplicate contract for %s", path, l.line, full)
+				}
+				cs.Funcs[full] = &FuncContract{Key: nm, PkgPath: pkgPath, Loops: map[int]*LoopSpec{}, Flags: map[string]string{"keyfn": "true"}, Asserts: map[int][]*Clause{}, File: path, Line: l.line}
 			}
 			cur = nil
 		case "ghost":
